@@ -208,6 +208,10 @@ class C16(BaseCheck):
                 if r.random() < p_refuse:
                     o['replace'] = False
                 ops.append(o)
+        if k.random() < 0.3:
+            case['two'] = True
+            for o in ops:
+                o['m'] = r.randrange(2)
         case['ops'] = ops
         return case
 
@@ -475,6 +479,13 @@ class C16(BaseCheck):
         events = []
         stats['class.' + case['class']] = 1
         m, grid, refuses = self._build(case, stats)
+        # a second, independent map of the same kind (own grid where applicable) receives part of the operations:
+        # state shared between instances by mistake shows up as the *other* map changing
+        two = bool(case.get('two'))
+        worlds = [[m, grid, refuses, None]]
+        if two:
+            m2, grid2, refuses2 = self._build(case, stats)
+            worlds.append([m2, grid2, refuses2, None])
         keys = KEYS[:case['nkeys']]
         if case.get('falsy_key'):
             keys = [''] + keys[1:]
@@ -482,6 +493,8 @@ class C16(BaseCheck):
         if case.get('init_as') in ('dict', 'sd') and case['class'] in ('gmeta', 'cmeta') or \
                 case.get('init_as') == 'dict':
             pass  # insertion order of dict/SortableDict equals the pair order
+        for wd in worlds:
+            wd[3] = [list(p) for p in items]
         viol = None
         skeleton = [case['class']]
         ok_mut = 0
@@ -495,6 +508,8 @@ class C16(BaseCheck):
             if viol:
                 break
             steps += 1
+            w = (o.get('m', 0) % len(worlds)) if two else 0
+            m, grid, refuses, items = worlds[w]
             outs = self._outcomes(items, o, refuses)
             before = [[k, v] for k, v in m.items()]
             exc = None
@@ -567,10 +582,18 @@ class C16(BaseCheck):
                         if 'pos_key' in o and o['pos_key'] != o['k'] and bk.index(o['pos_key']) > bk.index(o['k']):
                             stats['probe.relocation_to_later_key'] = stats.get('probe.relocation_to_later_key', 0) + 1
                 items = rmatch[0][1]
+            worlds[w][3] = items
             bad = self._observe(m, items, keys)
             if bad:
                 viol = {'clause': bad[0], 'detail': {'step': step, 'op': o, 'before': before, 'why': bad[1]}}
                 break
+            if two:
+                om_, og_, orf_, oitems = worlds[1 - w]
+                bad = self._observe(om_, oitems, keys)
+                if bad:
+                    viol = {'clause': 'other-instance-changed', 'detail': {'step': step, 'op': o, 'why': bad[1],
+                                                                           'note': 'the operation was applied to map %d; map %d changed' % (w, 1 - w)}}
+                    break
             if grid is not None and (step % 3 == 2 or step == len(case['ops']) - 1):
                 bad = self._dump_order(case, grid, items)
                 stats['dump_order_checks'] = stats.get('dump_order_checks', 0) + 1
